@@ -153,7 +153,8 @@ def body_short(case, note):
 
 NAME_POOL = ["x", "x_", "class_", "class", "style", "id", "data_a", "data-a", "title", "A_b", "for_", "y",
              # names to which HTML / browsers attach a meaning of their own (URLs, handlers, form values)
-             "href", "src", "action", "value", "onclick", "srcset", "poster", "xlink:href", "content", "alt", "name", "type"]
+             "href", "src", "action", "value", "onclick", "srcset", "poster", "xlink:href", "content", "alt", "name", "type",
+             "aria_hidden", "aria-pressed", "ARIA_label", "data_flag", "hidden", "contenteditable", "draggable", "spellcheck"]
 
 
 def raw_names():
@@ -172,7 +173,8 @@ def values():
     # values that start like something harmless or well known (data: / javascript: URLs, url(), template markers)
     prefixed = st.builds(
         lambda pre, t: pre + t,
-        st.sampled_from(["data:image/png;base64,", "data:text/html;charset=utf-8;base64,AAAA", "data:,", "javascript:", "https://x.example/?q=", "#", "mailto:", "url(", "var(--x)", "{{", "rgb(", "0", "true", "on", "&amp;", "&#10;"]),
+        st.sampled_from(["data:image/png;base64,", "data:text/html;charset=utf-8;base64,AAAA", "data:,", "javascript:", "https://x.example/?q=", "#", "mailto:", "url(", "var(--x)", "{{", "rgb(", "0", "true", "on", "&amp;", "&#10;",
+                         '{"a": 1, "b": "x y", "c": ', '["x", "y", ', '{\n  "k": "v",\n  "t": ', "[", "{"]),
         gen.any_text(),
     )
     return st.one_of(plain, plain, plain, htmlv, htmlv, gen.numbers(), st.sampled_from([True, False, None, 0, ""]), strsub, prefixed)
@@ -199,7 +201,15 @@ def pairs(max_size=3):
         st.sampled_from(BENIGN_HTML),
     )
     boolish = st.builds(lambda n, up: [[n, n.upper() if up else n]], st.sampled_from(BOOLEAN_ATTRS), st.booleans())
-    return st.one_of(plain, plain, plain, triple, boolish)
+    # state-like attributes given real booleans / None (True -> empty value, False / None -> omitted, whatever the name)
+    flagged = st.builds(
+        lambda n, v, n2, v2: [[n, v], [n2, v2]],
+        st.sampled_from(["aria_hidden", "aria-pressed", "ARIA_busy", "data_flag", "hidden", "contenteditable", "draggable", "spellcheck", "translate", "autocomplete"]),
+        st.sampled_from([True, False, None, "true", "false"]),
+        st.sampled_from(["aria_label", "aria-expanded", "role", "x"]),
+        st.sampled_from([True, False, 'a"b', None]),
+    )
+    return st.one_of(plain, plain, plain, triple, boolish, flagged)
 
 
 def spread():
